@@ -1012,6 +1012,9 @@ impl YaccParser<'_> {
                                                 ));
                                             }
                                             self.num_newlines += 1;
+                                            // Only a '*' can be the first half of the closing
+                                            // "*/": a '/' at the start of the next line is not.
+                                            continue;
                                         }
                                         '*' => (),
                                         _ => continue,
